@@ -19,8 +19,12 @@ Guard = tuple[ast.expr, bool]
 
 
 def falls_through(stmts: list[ast.stmt]) -> bool:
-    g = CFG(body=stmts)
-    return g.exit in g.reachable(g.entry)
+    """Can control reach the statement that FOLLOWS this list?  (`return` leaves the function: it does not fall through,
+    although it reaches the CFG's normal exit -- hence the sentinel.)"""
+    sentinel = ast.Pass()
+    g = CFG(body=[*stmts, sentinel])
+    reach = g.reachable(g.entry)
+    return any(n.ast is sentinel and n.id in reach for n in g.nodes)
 
 
 def _contains(node: ast.AST, target: ast.AST) -> bool:
